@@ -14,6 +14,7 @@ class DB:
         self.adt_by_path = {}    # (crate, def path) -> [(tyid, display)]
         self.def_idx = {}        # (crate, defid) -> (off, len)
         self._cache = {}
+        self._lookup_cache = {}
         self._ty = {}
         self._def = {}
         self.inst_by_def = None
@@ -98,12 +99,16 @@ class DB:
         return out
 
     def find_one(self, pattern, kinds=('fn', 'inst')):
+        ck = ('fn', pattern, kinds)
+        if ck in self._lookup_cache:
+            return self._lookup_cache[ck]
         ks = self.find(pattern, kinds)
         names = sorted({self.by_key[k][4] for k in ks})
         if len(ks) == 0:
             raise KeyError(f'no body matches {pattern}')
         if len(names) > 1:
             raise KeyError(f'ambiguous {pattern}: {names[:5]}')
+        self._lookup_cache[ck] = ks[0]
         return ks[0]
 
     def find_ty(self, crate, pattern):
@@ -113,6 +118,9 @@ class DB:
 
     def adt(self, crate, path_pattern, display_pattern=None):
         """type-table entry of an ADT by canonical definition path (regex), optionally filtered by display"""
+        ck = ('adt', crate, path_pattern, display_pattern)
+        if ck in self._lookup_cache:
+            return self._lookup_cache[ck]
         rx = re.compile(path_pattern); dx = re.compile(display_pattern) if display_pattern else None
         out = []
         for (c, path), lst in self.adt_by_path.items():
@@ -127,7 +135,8 @@ class DB:
             ds = sorted({self.ty(crate, t)['display'] for t in out})
             if len(ds) > 1:
                 raise KeyError(f'ambiguous ADT {path_pattern} in {crate}: {ds[:4]}')
-        return self.ty(crate, out[0])
+        self._lookup_cache[ck] = self.ty(crate, out[0])
+        return self._lookup_cache[ck]
 
     def ty_named(self, crate, pattern):
         ts = self.find_ty(crate, pattern)
